@@ -273,7 +273,7 @@ def check_prune(chk, rep, repo):
         dom = li.domain
         if dom == ("call", ("builtin", "enumerate"), (("attr", G, "nodes"),), ()):
             j = ("iterproj", dom, li.lid, (0,))
-            n = ("iterproj", dom, li.lid, (1,))
+            n = ("idx", ("attr", G, "nodes"), j)
             outer = w.loops[li.loops[-1]] if li.loops else None
             guard = (("cmp", "!=", *sorted([("K", "IRRELEVANT"), ("attr", n, "relevant")], key=repr)), True)
             guard2 = (("cmp", "==", *sorted([("K", "RELEVANT"), ("attr", n, "relevant")], key=repr)), True)
